@@ -215,7 +215,7 @@ def run_projects(ctx: core.Ctx, projects: list[dict[str, Any]], stream: str) -> 
         # (interpreters of the release series format_python_constraint knows: PYTHON_VERSION)
         from poetry.core.version.helpers import PYTHON_VERSION
         series = {v[:-2] for v in PYTHON_VERSION}
-        pys = [p for p in G.PY_FULL if ".".join(p.split(".")[:2]) in series]
+        pys = [p for p in G.PY_FULL if ".".join(p.split(".")[:2]) in series] + sorted(x + ".0" for x in series)   # incl. the first release of each series
         rp = [(pr, meta) for pr, meta in built if pr.get("python") and meta.requires_python]
         for (pr, meta), r in zip(rp, MC.ref_batch([{"op": "specv", "s": meta.requires_python, "vs": pys} for pr, meta in rp]) if rp else []):
             if r[0] != "ok":
